@@ -74,11 +74,11 @@ AssessClauses(p, ev) ==
 
 \* C08: tagging unchanged arguments UnknownChange instead of NoChange changes nothing, unless that taints a switch index
 TagVarClauses(p, post, cons, ev) ==
-  IF ev.alt3.status = "none" THEN {}
-  ELSE LET tagsU == [j \in 1..Len(ev.tags) |-> "U"] IN
-       IF Rs(p, post, tagsU, cons) # {} THEN {}
-       ELSE IF ev.alt3.status # "ok" THEN {"tagging.run"}
-       ELSE F("tagging", ~(SameT(Abs(ev.alt3.post), post) /\ Close(ev.alt3.w, ev.w)))
+  UNION {LET tv == ev.tagvars[j] IN
+         IF Rs(p, post, tv.tags, cons) # {} THEN {}                  \* that tagging (honestly) reaches a switch index
+         ELSE IF tv.status # "ok" THEN {"tagging.run"}
+         ELSE F("tagging", ~(SameT(Abs(tv.post), post) /\ Close(tv.w, ev.w)))
+         : j \in 1..Len(ev.tagvars)}
 
 TagClauses(ev) ==
   F("nochange", \E j \in 1..Len(ev.retdiff) : ev.retdiff[j].tag = "N" /\ ev.retdiff[j].aligned /\ ev.retdiff[j].primal # ev.retdiff[j].prev)
